@@ -1,2 +1,5 @@
 import TlxVerif.Props.C10
-#print axioms TlxVerif.C10.init_owner
+#print axioms TlxVerif.C10.pool_job_at_most_once
+#print axioms TlxVerif.C10.pool_loop_until_empty_quiescent
+#print axioms TlxVerif.C10.pool_loop_until_empty_predicate
+#print axioms TlxVerif.C10.pool_mutex
